@@ -67,9 +67,11 @@ def _two_arity_case(rng):
     X, Y, W, P, Q, R = var("X"), var("Y"), var("W"), var("P"), var("Q"), var("R")
     program = [gen.fact(fun("edge", A_, B_)), gen.fact(fun("edge", B_, C_)), gen.fact(fun("edge", A_, B_, int_(1))),
                gen.fact(fun("edge", B_, C_, int_(2))), gen.fact(fun("edge", A_, C_, int_(5))),
+               gen.fact(fun("edge_2", A_)), gen.fact(fun("edge_2", C_)), gen.fact(fun("utf_8", B_, C_)),
                (fun("hop", X, Y), call(fun("edge", X, Y))), (fun("cost", X, Y, W), call(fun("edge", X, Y, W))),
                (fun("both", X, Y, W), conj(call(fun("edge", X, Y)), call(fun("edge", X, Y, W))))]
-    queries = [call(fun("hop", P, Q)), call(fun("cost", P, Q, R)), call(fun("edge", P, Q)), call(fun("edge", P, Q, R)),
+    queries = [call(fun("edge_2", P)), call(fun("utf_8", P, Q)),
+               call(fun("hop", P, Q)), call(fun("cost", P, Q, R)), call(fun("edge", P, Q)), call(fun("edge", P, Q, R)),
                call(fun("both", P, Q, R))]
     return gen.Case("F1", "two-arities-%d" % rng.randint(0, 9), program, queries)
 
@@ -187,7 +189,7 @@ def make_scenario(seed, i):
             ctx_q = []
             for idx, k in enumerate(chosen):
                 sc["swap"].append({"name": k[0], "arity": k[1], "rows": [list(r) for r in fp[k]],
-                                   "style": rng.choice(["inferred", "explicit", "variadic", "inferred-decorated", "inferred-method", "inferred-default"]),
+                                   "style": rng.choice(["inferred", "explicit", "variadic", "inferred-decorated", "inferred-method", "inferred-default", "partial", "callable-object"]),
                                    "yields": rng.choice(["true", "false", "mixed", "none"])})
                 if idx < 2:
                     rules, qs = _contexts(rng, k, fp[k], idx)
@@ -207,10 +209,10 @@ def make_scenario(seed, i):
     m = rng.randint(1, 5)
     sc["argcheck"] = {"templates": [rng.choice(_ARG_POOL) for _ in range(m)],
                       "caller": rng.choice(["api", "compiled", "compiled", "call", "call", "once", "findall"]),
-                      "split": rng.randint(0, m), "style": rng.choice(["inferred", "explicit", "variadic", "inferred-decorated", "inferred-method", "inferred-default"])}
+                      "split": rng.randint(0, m), "style": rng.choice(["inferred", "explicit", "variadic", "inferred-decorated", "inferred-method", "inferred-default", "partial", "callable-object"])}
     sc["exc"] = {"query": rng.choice(_EXC_QUERIES), "succ": sorted(rng.sample([1, 2, 3], rng.randint(0, 3))),
                  "event": rng.randint(0, 7), "exc_class": rng.choice(["custom", "yp", "runtime", "key", "value"]),
-                 "style": rng.choice(["inferred", "explicit", "variadic", "inferred-decorated", "inferred-method", "inferred-default"])}
+                 "style": rng.choice(["inferred", "explicit", "variadic", "inferred-decorated", "inferred-method", "inferred-default", "partial", "callable-object"])}
     # the Python predicates are registered before (True) or after the script is loaded: the order is the user's choice
     sc["register_first"] = rng.random() < 0.5
     return untup(sc)
@@ -282,6 +284,15 @@ def register(real, name, f, arity, style):
             env = {"f": f}
             exec("def pred(%s=None):\n    return f(%s)\n" % (",".join(ps), ",".join(ps)), env)
             real.yp.register_function(name, env["pred"])
+    elif style == "partial":
+        import functools
+        real.yp.register_function(name, functools.partial(f), arity=arity)
+    elif style == "callable-object":
+        ps = ",".join("a%d" % (i + 1) for i in range(arity))
+        env = {}
+        exec("class Pred:\n  def __init__(self, f):\n    self.f = f\n  def __call__(self%s):\n    return self.f(%s)\n"
+             % ("," + ps if ps else "", ps), env)
+        real.yp.register_function(name, env["Pred"](f), arity=arity)
     elif style == "inferred-method":
         # a bound method of an object that nothing else refers to (the registration is what keeps the predicate alive)
         ps = ",".join("a%d" % (i + 1) for i in range(arity))
